@@ -30,7 +30,7 @@ func init() {
 	reg.Register(runner.Check{
 		ID:    "C10",
 		Level: "fault_enumeration",
-		Rule: "hostile-input enumeration against the real endpoints: a peer holding a valid credential (user bob) sends validly encrypted segments built by the independent encoder: protocol type {0..12,255} x session id {0, own, the live session id of another user, unknown} x seq {0,1,2^32-1} x unAck {0,2^32-1} x window {0,65535} x fragment {0,255} x length fields {consistent, payload length too large, too small, exactly 1025, 65535, prefix too large, invalid low-entropy fields}, singly and as second segment after a valid open; on both transports, from the session's own address and from a second address, against the server (with a victim session of user alice running) and against the client (hostile server); " +
+		Rule: "hostile-input enumeration against the real endpoints: a peer holding a valid credential (user bob) sends validly encrypted segments built by the independent encoder: protocol type {0..12,255} x session id {0, own, the live session id of another user, unknown} x seq {0,1,2^32-1} x unAck {0,2^32-1} x window {0,65535} x fragment {0,255} x status code of session segments {0,1,2,255} x length fields {consistent, payload length too large, too small, exactly 1025, 65535, prefix too large, invalid low-entropy fields}, singly and as second segment after a valid open; on both transports, from the session's own address and from a second address, against the server (with a victim session of user alice running) and against the client (hostile server); " +
 			"plus all unauthenticated inputs of C05's shapes; SOCKS5: every byte string of length <=5 over {00,01,02,03,04,05,ff} and every truncation / single-byte substitution of valid requests, responses and UDP headers into the request/response readers, the UDP datagram parser, UDPAssociateWrapper and the client-side authentication. Oracle: no panic in any goroutine, no deadlock, the victim's transfer completes. distinct = distinct hostile programs / byte strings",
 		Assumptions: []string{
 			"a panic in any goroutine is a process crash (mieru has no recover)",
@@ -58,10 +58,11 @@ type hseg struct {
 	fragment uint8
 	lenKind  int // 0 consistent, 1 payloadLen too large, 2 too small, 3 prefix too large, 4 bad low-entropy fields
 	payload  int
+	status   uint8 // status code of session segments
 }
 
 func (h hseg) String() string {
-	return fmt.Sprintf("{proto=%d sid=%s seq=%d unack=%d win=%d frag=%d len=%s payload=%d}", h.proto,
+	return fmt.Sprintf("{proto=%d status=%d sid=%s seq=%d unack=%d win=%d frag=%d len=%s payload=%d}", h.proto, h.status,
 		[]string{"0", "own", "victim", "unknown"}[h.sidKind], h.seq, h.unack, h.window, h.fragment,
 		[]string{"ok", "too-large", "too-small", "prefix-too-large", "bad-le", "1025", "65535"}[h.lenKind], h.payload)
 }
@@ -84,7 +85,7 @@ func (p hprog) String() string {
 
 func build(h hseg, own, victim uint32) (*refwire.Seg, func(*refwire.Seg)) {
 	sid := []uint32{0, own, victim, 0xdeadbeef}[h.sidKind]
-	s := &refwire.Seg{Proto: h.proto, SessionID: sid, Seq: h.seq, UnAck: h.unack, Window: h.window, Fragment: h.fragment}
+	s := &refwire.Seg{Proto: h.proto, SessionID: sid, Seq: h.seq, UnAck: h.unack, Window: h.window, Fragment: h.fragment, Status: h.status}
 	if h.payload > 0 {
 		s.Payload = bytes.Repeat([]byte{0x41}, h.payload)
 	}
@@ -422,6 +423,19 @@ func alphabet(tier string) []hseg {
 								hs = append(hs, hseg{proto: pr, sidKind: sk, seq: seq, unack: ua, window: win, fragment: fr, lenKind: lk, payload: pay})
 							}
 						}
+					}
+				}
+			}
+		}
+	}
+	// session segments (open / close, request / response) carrying every status code class:
+	// quota exhausted (1), undefined (2, 255)
+	for _, pr := range []uint8{2, 3, 4, 5} {
+		for sk := 0; sk < 4; sk++ {
+			for _, seq := range []uint32{0, 1, 0xffffffff} {
+				for _, st := range []uint8{1, 2, 255} {
+					for _, pay := range []int{0, 20} {
+						hs = append(hs, hseg{proto: pr, sidKind: sk, seq: seq, window: 65535, payload: pay, status: st})
 					}
 				}
 			}
